@@ -7,6 +7,8 @@ from dataclasses import dataclass, field, fields, is_dataclass
 from enum import Enum
 from typing import Any, Literal
 
+from hypergraph.nodes.base import _EMIT_SENTINEL
+
 ErrorHandling = Literal["raise", "continue"]
 
 _MAX_STRING_PREVIEW = 120
@@ -336,8 +338,9 @@ class GraphState:
 
         self.values[name] = value
 
-        # Only increment version if value actually changed
-        if is_new:
+        # Only increment version if value actually changed. An emit signal is the
+        # same sentinel every time, so each production counts as a change.
+        if is_new or value is _EMIT_SENTINEL:
             self.versions[name] = self.versions.get(name, 0) + 1
         else:
             # Defensive comparison for types like numpy arrays
